@@ -517,7 +517,8 @@ class CoherentFeedForwardLoop:
 
     def _get_cache_key(self, prompt: str) -> str:
         """Generate cache key for prompt."""
-        return hashlib.md5(prompt.encode()).hexdigest()[:16]
+        # Full SHA-256: a truncated MD5 lets two different prompts share a cache slot
+        return hashlib.sha256(prompt.encode()).hexdigest()
 
     def _record_result(self, result: LoopResult):
         """Record result for audit."""
